@@ -1,7 +1,5 @@
 (** The option-aware model under the default options IS the lead's ordered
-    diff model (Diff.DiffModel.diff) - on inputs without bytes dict keys, where
-    the real code raises TypeError from the path printer (finding F5), which
-    Diff.DiffModel does not describe. *)
+    diff model (Diff.DiffModel.diff), for all inputs. *)
 From Coq Require Import List ZArith NArith Bool Arith Lia.
 Import ListNotations.
 From DD Require Import Base.PyStr Base.Value Diff.Tree Diff.DiffModel Options.OptModel Options.OptProofsBase.
@@ -97,31 +95,25 @@ Proof.
 Qed.
 
 Lemma key_reports_add_none : forall k2 k1 kvs p1 p2,
-  (forall k, In k k2 -> is_bytes k = false) ->
   key_reports F0 KDictAdd k2 k1 [] kvs p1 p2 =
-  Ok (flat_map (fun k => if mem_atom k k1 then []
-        else report nop KDictAdd (snoc p1 (PKey k)) (snoc p2 (PKey k)) None (assoc k kvs) None) k2).
+  flat_map (fun k => if mem_atom k k1 then []
+        else report nop KDictAdd (snoc p1 (PKey k)) (snoc p2 (PKey k)) None (assoc k kvs) None) k2.
 Proof.
-  induction k2 as [|k k2 IH]; intros k1 kvs p1 p2 Hb; cbn; [reflexivity|].
+  induction k2 as [|k k2 IH]; intros k1 kvs p1 p2; cbn [key_reports flat_map]; [reflexivity|].
   destruct (mem_atom k k1) eqn:E.
-  - apply IH. intros x Hx. apply Hb. right. exact Hx.
-  - unfold orig_key, bytes_key. cbn [cleaning no_opts o_strty o_numty o_case orb].
-    rewrite (Hb k (or_introl eq_refl)).
-    rewrite IH by (intros x Hx; apply Hb; right; exact Hx). cbn. rewrite reportF_none. reflexivity.
+  - apply IH.
+  - rewrite IH. cbn [orig_key cleaning no_opts o_strty o_numty o_case orb]. rewrite reportF_none. reflexivity.
 Qed.
 
 Lemma key_reports_rem_none : forall k1 k2 kvs p1 p2,
-  (forall k, In k k1 -> is_bytes k = false) ->
   key_reports F0 KDictRem k1 k2 [] kvs p1 p2 =
-  Ok (flat_map (fun k => if mem_atom k k2 then []
-        else report nop KDictRem (snoc p1 (PKey k)) (snoc p2 (PKey k)) (assoc k kvs) None None) k1).
+  flat_map (fun k => if mem_atom k k2 then []
+        else report nop KDictRem (snoc p1 (PKey k)) (snoc p2 (PKey k)) (assoc k kvs) None None) k1.
 Proof.
-  induction k1 as [|k k1 IH]; intros k2 kvs p1 p2 Hb; cbn; [reflexivity|].
+  induction k1 as [|k k1 IH]; intros k2 kvs p1 p2; cbn [key_reports flat_map]; [reflexivity|].
   destruct (mem_atom k k2) eqn:E.
-  - apply IH. intros x Hx. apply Hb. right. exact Hx.
-  - unfold orig_key, bytes_key. cbn [cleaning no_opts o_strty o_numty o_case orb].
-    rewrite (Hb k (or_introl eq_refl)).
-    rewrite IH by (intros x Hx; apply Hb; right; exact Hx). cbn. rewrite reportF_none. reflexivity.
+  - apply IH.
+  - rewrite IH. cbn [orig_key cleaning no_opts o_strty o_numty o_case orb]. rewrite reportF_none. reflexivity.
 Qed.
 
 Lemma app2_nil_l : forall {A B} (x : list A * list B), app2 ([], []) x = x.
@@ -138,9 +130,9 @@ Proof. reflexivity. Qed.
 Ltac head := cbn [diffF diff type_of nop]; rewrite ?excluded_none, ?same_group_none; cbn [orb]; rewrite ?andb_true_r.
 
 Lemma go_list_none : forall xs p1 p2,
-  Forall (fun x => forall t2 p1 p2, nbk x = true -> nbk t2 = true ->
+  Forall (fun x => forall t2 p1 p2,
             diffF udiff ops c F0 x t2 p1 p2 = Ok (diff (hatomF F0) udiff ops nop nop c x t2 p1 p2)) xs ->
-  forallb nbk xs = true -> forall ys i, forallb nbk ys = true ->
+  forall ys i,
   (fix go (xs ys : list value) (i : nat) {struct xs} : res (list entry * list path) :=
      match xs, ys with
      | [], _ => Ok (added_fromF F0 ys i p1 p2, [])
@@ -157,22 +149,19 @@ Lemma go_list_none : forall xs p1 p2,
          app2 (diff (hatomF F0) udiff ops nop nop c x y (snoc p1 (PIdx i)) (snoc p2 (PIdx i))) (go xs' ys' (S i))
      end) xs ys i).
 Proof.
-  induction xs as [|x xs IHxs]; intros p1 p2 IH Hn1 ys i Hn2.
+  induction xs as [|x xs IHxs]; intros p1 p2 IH ys i.
   - rewrite added_fromF_none. reflexivity.
   - destruct ys as [|y ys].
     + rewrite (removed_fromF_none (x :: xs)). reflexivity.
     + inversion IH as [|? ? Hx Hxs]; subst.
-      cbn [forallb] in Hn1, Hn2. apply andb_true_iff in Hn1. destruct Hn1 as [Hn1a Hn1b].
-      apply andb_true_iff in Hn2. destruct Hn2 as [Hn2a Hn2b].
-      rewrite (Hx y _ _ Hn1a Hn2a). cbn [bind].
-      rewrite (IHxs p1 p2 Hxs Hn1b ys (S i) Hn2b). reflexivity.
+      rewrite (Hx y _ _). cbn [bind].
+      rewrite (IHxs p1 p2 Hxs ys (S i)). reflexivity.
 Qed.
 
 Theorem diffF_no_opts : forall t1 t2 p1 p2,
-  nbk t1 = true -> nbk t2 = true ->
   diffF udiff ops c F0 t1 t2 p1 p2 = Ok (diff (hatomF F0) udiff ops nop nop c t1 t2 p1 p2).
 Proof.
-  induction t1 as [a|xs IH|xs IH|kvs IH|xs|xs] using value_ind'; intros t2 p1 p2 Hn1 Hn2.
+  induction t1 as [a|xs IH|xs IH|kvs IH|xs|xs] using value_ind'; intros t2 p1 p2.
   - (* atom *)
     destruct t2 as [b|ys|ys|kvs2|ys|ys]; head;
       try (destruct a; cbn [atom_ty ty_eqb negb]; rewrite reportF_none; reflexivity).
@@ -194,12 +183,7 @@ Proof.
     unfold kmap, ckeys. cbn [cleaning no_opts o_strty o_numty o_case orb bind].
     rewrite <- (shortcutF_none _ _ p1).
     destruct (shortcutF c (keys_of c kvs) (keys_of c kvs2)) eqn:Es; [reflexivity|].
-    assert (forall k, In k (keys_of c kvs2) -> is_bytes k = false) as Hb2.
-    { intros k Hk. apply keys_of_In in Hk. destruct Hk as [Hk _]. exact (nbk_dict_key kvs2 k Hn2 Hk). }
-    assert (forall k, In k (keys_of c kvs) -> is_bytes k = false) as Hb1.
-    { intros k Hk. apply keys_of_In in Hk. destruct Hk as [Hk _]. exact (nbk_dict_key kvs k Hn1 Hk). }
-    rewrite key_reports_add_none by exact Hb2. cbn [bind].
-    rewrite key_reports_rem_none by exact Hb1. cbn [bind].
+    rewrite key_reports_add_none, key_reports_rem_none.
     match goal with |- bind ?G _ = _ => assert (G = Ok
       ((fix go (l : list (atom * value)) : list entry * list path :=
           match l with
@@ -217,18 +201,14 @@ Proof.
                 end
               else rest
           end) kvs)) as Hgo end.
-    { assert (forall k v, In (k, v) kvs -> nbk v = true) as Hv1 by (intros k v Hin; exact (nbk_dict_val kvs k v Hn1 Hin)).
-      clear Hn1 Hb1 Es. induction kvs as [|[k v1] r IHr]; [reflexivity|].
+    { clear Es. induction kvs as [|[k v1] r IHr]; [reflexivity|].
       inversion IH as [|? ? Hx Hxs]; subst. cbn [snd] in Hx.
-      specialize (IHr Hxs (fun k' v' H => Hv1 k' v' (or_intror H))).
+      specialize (IHr Hxs).
       rewrite (repr_none k).
       destruct (keep_key c k); cbn [bind].
       - destruct (find (py_eq k) (keys_of c kvs2)) as [k'|] eqn:Ef.
         + rewrite (orig_none k'). destruct (assoc k' kvs2) as [v2|] eqn:Ea.
-          * apply find_some in Ef. destruct Ef as [Ef _].
-            rewrite (Hb2 _ Ef : bytes_key k' = false).
-            apply assoc_In in Ea. destruct Ea as [k2 [Hin _]].
-            rewrite (Hx v2 _ _ (Hv1 _ _ (or_introl eq_refl)) (nbk_dict_val _ _ _ Hn2 Hin)). cbn [bind].
+          * rewrite (Hx v2 _ _). cbn [bind].
             rewrite IHr. reflexivity.
           * cbn [bind]. rewrite IHr. cbn [bind]. rewrite app2_nil_l. reflexivity.
         + cbn [bind]. rewrite IHr. cbn [bind]. rewrite app2_nil_l. reflexivity.
@@ -242,10 +222,9 @@ Qed.
 
 (* the whole run *)
 Theorem run_optF_no_opts : forall t1 t2,
-  nbk t1 = true -> nbk t2 = true ->
   run_optF udiff ops c F0 t1 t2 = Ok (run_diff (hatomF F0) udiff ops nop nop c t1 t2).
 Proof.
-  intros t1 t2 H1 H2. unfold run_optF, run_diff. rewrite (diffF_no_opts t1 t2 [] [] H1 H2). cbn.
+  intros t1 t2. unfold run_optF, run_diff. rewrite (diffF_no_opts t1 t2 [] []). cbn.
   destruct (diff (hatomF F0) udiff ops nop nop c t1 t2 [] []). reflexivity.
 Qed.
 
